@@ -168,6 +168,7 @@ func cmdHoldemExplore(args []string) {
 	shard := fs.Int("shard", 0, "take configurations with index % of == shard")
 	of := fs.Int("of", 1, "")
 	only := fs.Int("only", -1, "explore only the configuration with this index (replay)")
+	dry := fs.Bool("dry", false, "count only, write no lines")
 	fs.Parse(args)
 	amts := parseInts(*amtS)
 	var cfgs []HCfg
@@ -225,6 +226,7 @@ func cmdHoldemExplore(args []string) {
 		go func(w int) {
 			defer wg.Done()
 			tw := newTraceWriter(fmt.Sprintf("%s-%d.ndjson", *outPrefix, w))
+			tw.mute = *dry
 			var loc exploreStats
 			for i := range ch {
 				s := exploreConfig(mine[i], amts, *refusals, tw, mineIdx[i]*1000000, *maxStates)
